@@ -6,6 +6,16 @@ VERIF = os.path.dirname(os.path.dirname(os.path.abspath(__file__)))
 TRUST = "trusted base: the harness' own reference models (from-scratch interpreter Ref, shadow of declared dependencies, naive graph model, HashMap models), rustc/cargo, and Miri for the sanitizer leg; reach is bounded by the workload generator (see DESIGN.md section 12)"
 
 CHECKS = {
+ "C12": dict(cat="exploration", ref="5 (C12)", tech="runtime oracle over an exhaustively enumerated closed domain (all ordered output pairs x 5 checkers) directly, through the object-safe proxy and inside real top-down/bottom-up builds; random richer pairs in thorough",
+   text="All 64 ordered pairs of Result<i8,i8> outputs with 4 Ok and 4 Err payloads are enumerated for all five built-in checkers and compared with the documented relation written independently; each pair is also driven through real builds where the requirer must be re-executed iff the relation says inconsistent. Exhaustive on the closed domain, sampled (10^6) on richer types."),
+ "C13": dict(cat="exploration", ref="5 (C13)", tech="runtime oracle on real temporary files/directories with explicitly set mtimes on two file systems: all ordered state pairs x 3 checkers, three stamp routes, reader position after stamping, write-open semantics, concatenation-ambiguous directory listings",
+   text="File-system states (absent, files around the read-buffer boundary in several content variants, directories incl. name sets that are ambiguous under undelimited concatenation, created in every order) are materialised on ext4 and tmpfs; for all ordered pairs the verdict of each checker must equal equality of its documented aspect, the three stamp routes must agree, stamped readers must still deliver the full content, and Resource::write must create/truncate and refuse directories."),
+ "C14": dict(cat="exploration", ref="5 (C14)", tech="model-based runtime monitor: random operation sequences on the real map resource / MapWriter / MapEqualsChecker / typed ResourceState vs HashMap models, incl. a leg inside real builds; Miri shard in thorough",
+   text="Random 120-operation sequences over seven key kinds with equal bits and two resource types sharing state types are compared with one HashMap per key kind and one slot per resource type after every operation; a build leg checks correct values, no re-execution on a foreign key type's change, re-execution on the own key's change."),
+ "C15": dict(cat="exploration", ref="5 (C15)", tech="runtime monitor over type families with identical bits/hash/debug text used as tasks and resources: == / Hash on &dyn KeyObj for all pairs; executions, outputs and store nodes per (type, value) in generated build sequences; Miri shard in thorough",
+   text="Newtypes, tuples and Box/Rc/Arc wrappers of tasks with the same value (and map keys K1/K2 with the same number) are required in random sessions; outputs must equal the per-type formula, the store dump must hold exactly one node per distinct (type, value), no cross-type overlap or hidden-dependency abort may occur, and repeating a session runs nothing."),
+ "C16": dict(cat="exploration", ref="5 (C16)", tech="runtime monitor: digest of the complete event log (5 observers, 23 tracker callbacks) of each history compared across in-process replays and replays in 16 child processes with fresh hash seeds; Miri shards with different seeds in thorough",
+   text="Each history over a wide program is replayed twice in-process with unrelated instances in between and four more times spread over separate processes; every digest of the totally ordered event log must be identical."),
  "C05": dict(cat="exploration", ref="5 (C05), 6 (K4)", tech="fault injection of hidden reads/writes into well-formed programs + runtime monitors: online legality of every returning read / entered write against the shadow, abort-before-modification, final store structure, second oracle from the from-scratch interpreter",
    text="Hidden reads and writes are injected value-conditionally at random tasks and positions so that they become live in some session of a history (writer first, reader first, same or different sessions, top-down and bottom-up). A read that returns, or a write function that is entered, while the shadow of recorded dependencies says reader and writer are unrelated is a violation; so is a value returned where the from-scratch interpreter hits a hidden dependency. The clause about the final store structure is known not to hold (K4)."),
  "C06": dict(cat="exploration", ref="5 (C06)", tech="fault injection of second writers + runtime monitors: online single-writer check against the shadow, abort-before-modification for Context::write, one writer per resource in the store dump, second oracle from the from-scratch interpreter; silence on re-executed writers",
